@@ -366,7 +366,46 @@ func loadExamples(repo string) ([]example, error) {
 		}
 		out = append(out, ex)
 	}
+	out = append(out, publishedDefinitions(repo)...)
 	return out, nil
+}
+
+// publishedDefinitions: the definition files GOBL publishes under data/ are GOBL documents too
+// (tax/regime-def, tax/addon-def, cbc/catalogue-def ...: registered schemas that the parser, the
+// validator and the envelope accept like any other payload).  The smaller ones join the examples
+// as bases of the mutation space, so that the Validate methods of the definition types see
+// documents with members deleted, nulled, retyped and duplicated as well.
+func publishedDefinitions(repo string) []example {
+	var out []example
+	for _, dir := range []struct {
+		name string
+		max  int64
+		n    int
+	}{{"regimes", 6000, 16}, {"addons", 2500, 4}, {"catalogues", 1500, 2}} {
+		root := filepath.Join(repo, "data", dir.name)
+		ents, err := os.ReadDir(root)
+		if err != nil {
+			continue
+		}
+		k := 0
+		for _, e := range ents { // ReadDir sorts by name
+			info, err := e.Info()
+			if err != nil || e.IsDir() || filepath.Ext(e.Name()) != ".json" || info.Size() > dir.max || k >= dir.n {
+				continue
+			}
+			b, err := os.ReadFile(filepath.Join(root, e.Name()))
+			if err != nil || !json.Valid(b) {
+				continue
+			}
+			var buf bytes.Buffer
+			if json.Compact(&buf, b) != nil {
+				continue
+			}
+			out = append(out, example{name: "data/" + dir.name + "/" + e.Name(), data: buf.Bytes()})
+			k++
+		}
+	}
+	return out
 }
 
 type mutSpec struct {
